@@ -1066,6 +1066,26 @@ def node_kind_tested(repo: Repo, rep):
                 if isinstance(x.value, ast.Name) and x.value.id in f.params and (f.name.startswith("_") or f.parent is not None):
                     rep.ok("R-NODE-KIND-TESTED", f, x, f"`{norm(x)}`: node handed to a helper by a caller that tested it")
                     continue
+                # a private method reading a field of its own object (`self._ast_node.keys`): every call of it stands behind the kind test
+                if f.cls is not None and f.name.startswith("_") and not f.name.startswith("__") and f.params and base.startswith(f.params[0] + "."):
+                    cg_ = callgraph(repo)
+                    calls_ = [(cf, c_) for cf, c_, how in cg_.callers.get(f.key, [])]
+                    all_ok = bool(calls_)
+                    for cf, c_ in calls_:
+                        ccfg = cfg_of(cf)
+                        cbase = (cf.params[0] if cf.params else "self") + base[len(f.params[0]):]
+                        k_edges, n_edges = [], []
+                        for cn in ccfg.conds():
+                            e = cn.ast
+                            if isinstance(e, ast.Call) and norm(e.func) == "isinstance" and len(e.args) == 2 and norm(e.args[0]) == cbase and not any(b.kind == "assertfail" for b, l in cn.succ):
+                                k_edges.append((cn, "T"))
+                        at_ = ccfg.nodes_containing(c_)
+                        thr = reach(ccfg, [ccfg.entry], blocked_edges=k_edges)
+                        if not k_edges or not at_ or any(nd in thr for nd in at_):
+                            all_ok = False
+                    if all_ok:
+                        rep.ok("R-NODE-KIND-TESTED", f, x, f"`{norm(x)}`: every call of {f.qualname} stands behind the kind test of its caller")
+                        continue
                 rep.violation(
                     "R-NODE-KIND-TESTED",
                     f,
